@@ -240,4 +240,77 @@ def unusedImports (code : Str) (s : State) : List Key :=
 def prune (code : Str) (s : State) : Option State :=
   removeAll s ((unusedImports code s).map (fun k => { from_ := k.1, name := k.2 }))
 
+/-! ### the append/remove discipline `Parser.parse` relies on (the ledger)
+
+`Parser.parse` files the imports of every model as one batch (`imports.append(model.imports)`: in
+`__change_from_import`, again when a pass changed them, and once more for every model in the final
+collection loop) and takes batches back as a whole (`imports.remove(unused_model.imports)` for the root
+models `--collapse-root-models` made superfluous).  The counters are only right if every batch that is
+taken back was filed before: the ledger holds the batches filed and not yet taken back.  Removals of
+a single import (`remove(Import(..))`: the pruning loop; `remove_referenced_imports`) are not batches:
+they are booked as debits. -/
+
+def keysOf (is : List Imp) : List Key := is.map keyOf
+
+/-- equal as multisets -/
+def sameBatch (a b : List Key) : Bool := (a ++ b).all (fun k => a.count k == b.count k)
+
+/-- take one filed batch equal (as a multiset) to `b` out of the ledger; `none` = there is none -/
+def takeBatch (b : List Key) : List (List Key) → Option (List (List Key))
+  | [] => none
+  | c :: r => if sameBatch c b then some r else (takeBatch b r).map (c :: ·)
+
+/-- what the harness records of the real calls: `append(x)`, `remove(<iterable>)`,
+`remove(<one Import>)`, `remove_referenced_imports(path)` -/
+inductive LOp where
+  | app (is : List Imp)
+  | rem (is : List Imp)
+  | rem1 (i : Imp)
+  | rr (path : Str)
+  deriving Inhabited
+
+def LOp.op : LOp → Op
+  | .app is => .append is
+  | .rem is => .remove is
+  | .rem1 i => .remove [i]
+  | .rr p => .removeRef p
+
+structure Ledger where
+  /-- batches filed and not taken back -/
+  filed : List (List Key) := []
+  /-- single removals -/
+  debits : List Key := []
+  deriving Inhabited, DecidableEq
+
+/-- `none` = the operation takes back a batch that was never filed (or was taken back already) -/
+def ledgerStep (s : State) (L : Ledger) : LOp → Option Ledger
+  | .app is => some { L with filed := keysOf is :: L.filed }
+  | .rem is => if is.isEmpty then some L else (takeBatch (keysOf is) L.filed).map (fun f => { L with filed := f })
+  | .rem1 i => some { L with debits := keyOf i :: L.debits }
+  | .rr p => match s.refPaths.lookup p with
+    | some i => some { L with debits := keyOf i :: L.debits }
+    | none => some L
+
+/-- the ledger after a history; `none` = the history is undisciplined. A history that raises is
+followed up to the operation that raises. -/
+def ledgerRun : State → Ledger → List LOp → Option Ledger
+  | _, L, [] => some L
+  | s, L, o :: os => match ledgerStep s L o with
+    | none => none
+    | some L' => match step s o.op with
+      | some s' => ledgerRun s' L' os
+      | none => some L'
+
+/-- index of the first undisciplined operation (what the driver reports) -/
+def ledgerBreak : State → Ledger → List LOp → Nat → Option Nat
+  | _, _, [], _ => none
+  | s, L, o :: os, n => match ledgerStep s L o with
+    | none => some n
+    | some L' => match step s o.op with
+      | some s' => ledgerBreak s' L' os (n + 1)
+      | none => none
+
+/-- how often the filed batches credit `k` -/
+def credit (filed : List (List Key)) (k : Key) : Nat := (filed.map (fun b => b.count k)).sum
+
 end Dcg.Model.Imports
